@@ -36,6 +36,9 @@ func fullAlphabet(w *chain.World, relay chain.RelayOpts) map[string]func(*rapid.
 		"planProposal":   w.ActPlanProposal,
 		"iprpcSetData":   w.ActIprpcSetData,
 		"iprpcFund":      w.ActIprpcFund,
+		"conflictDetect": w.ActConflictDetect,
+		"conflictVote":   w.ActConflictVote,
+		"conflictVote2":  w.ActConflictVote,
 		"relayPayment":   w.ActRelayPayment(relay),
 		"relayPayment2":  w.ActRelayPayment(relay),
 		"relayPayment3":  w.ActRelayPayment(relay),
